@@ -13,9 +13,16 @@
 //   mt  M I M I                     maybe<tuple<dyn,scalar>> (empty when M = N) vs same
 // Layout suffix on the forms with "A:" operands other than aa:  <form>.rc / .cr / .cc  = the arrays of the first / second
 // operand are row-major (r) or column-major (c) ndarray_t objects holding the SAME logical content; aa has the kind "col".
+//   wi  S:ta S:tb S:vec|nd|sc L:a L:b  integer element types of different WIDTH (i8 u8 i16 u16 i32 i64): vector<ta> vs vector<tb>
+//                                   (index-array arm), ndarray_t of shape (1,n) (ndarray arm), first elements as scalars
+// Prefix aeq_ / acl_: the same form through utils::apply_isequal / utils::apply_isclose (the entry the testing macros use;
+//   apply_isclose has no eps parameter: the default 1e-6, i.e. equality on the wire's quarter grid).
 // Result: "ok 1" / "ok 0"; "unsupported" = the pairing is rejected at compile time (guarded here).
 #include "nmtools/utility/isequal.hpp"
 #include "nmtools/utility/isclose.hpp"
+#include "nmtools/utility/apply_isequal.hpp"
+#include "nmtools/utility/apply_isclose.hpp"
+#include <cstdint>
 #include "nmtools/array/ndarray.hpp"
 #include "nmtools/array/view/ref.hpp"
 #include "nmtools/array/view/reshape.hpp"
@@ -29,13 +36,15 @@ using namespace nmtools::literals;
 namespace utils = nmtools::utils;
 namespace view = nmtools::view;
 
-template <bool CL> struct Mode {
+template <bool CL, bool AP = false> struct Mode {
     using elem_t = std::conditional_t<CL, double, ll>;
     using int_t = std::conditional_t<CL, int, int>;
     double eps = 0;
     static elem_t conv(ll v) { if constexpr (CL) return (double)v / 4.0; else return (elem_t)v; }
     template <typename A, typename B> std::string cmp(const A& a, const B& b) const {
-        if constexpr (CL) {
+        if constexpr (AP && CL) return utils::apply_isclose(a, b) ? "ok 1" : "ok 0";
+        else if constexpr (AP) return utils::apply_isequal(a, b) ? "ok 1" : "ok 0";
+        else if constexpr (CL) {
             using r_t = decltype(utils::isclose(a, b, eps));
             if constexpr (meta::is_fail_v<r_t>) return "unsupported"; else return utils::isclose(a, b, eps) ? "ok 1" : "ok 0";
         } else {
@@ -107,9 +116,39 @@ template <typename A, typename B> constexpr bool packed_mismatch() {
     else return false;
 }
 
-template <bool CL, bool C1, bool C2>
+// integer element types by tag
+template <typename F> static std::string with_int(const std::string& t, F&& f) {
+    if (t == "i8") return f(int8_t{}); if (t == "u8") return f(uint8_t{}); if (t == "i32") return f(int32_t{}); if (t == "i64") return f(int64_t{});
+#ifndef VD_LIGHT
+    if (t == "i16") return f(int16_t{}); if (t == "u16") return f(uint16_t{});
+#endif
+    return "unsupported";
+}
+template <bool CL>
+static std::string run_width(const Case& c) {
+    Mode<CL> m; auto& a = c.args; if (CL) m.eps = (double)a.back().val / 4.0;
+    std::string form = a[2].raw.substr(2);
+    return with_int(a[0].raw.substr(2), [&](auto ta) {
+        return with_int(a[1].raw.substr(2), [&](auto tb) -> std::string {
+            using TA = decltype(ta); using TB = decltype(tb);
+            const auto& x = a[3].list; const auto& y = a[4].list;
+            if (form == "sc") return m.cmp((TA)x[0], (TB)y[0]);
+            if (form == "vec") { if constexpr (CL) return "unsupported"; else return m.cmp(std::vector<TA>(x.begin(), x.end()), std::vector<TB>(y.begin(), y.end())); }
+            if (form == "nd") {
+                nm::array::ndarray_t<std::vector<TA>, std::vector<size_t>> p; p.resize(std::vector<size_t>{1, x.size()});
+                nm::array::ndarray_t<std::vector<TB>, std::vector<size_t>> q; q.resize(std::vector<size_t>{1, y.size()});
+                for (size_t i = 0; i < x.size(); i++) p(0, i) = (TA)x[i];
+                for (size_t i = 0; i < y.size(); i++) q(0, i) = (TB)y[i];
+                return m.cmp(p, q);
+            }
+            return "unsupported";
+        });
+    });
+}
+
+template <bool CL, bool C1, bool C2, bool AP = false>
 static std::string run(const Case& c, const std::string& form) {
-    Mode<CL> m; using T = typename Mode<CL>::elem_t;
+    Mode<CL, AP> m; using T = typename Mode<CL, AP>::elem_t;
     using A1 = std::conditional_t<C1, dyn_col_t<T>, dyn_t<T>>; using A2 = std::conditional_t<C2, dyn_col_t<T>, dyn_t<T>>;
     auto& a = c.args;
     if (CL) m.eps = (double)a.back().val / 4.0;
@@ -118,13 +157,14 @@ static std::string run(const Case& c, const std::string& form) {
     using E1 = nmtools_either<A1, T>; using E2 = nmtools_either<A2, T>;
     auto mkM1 = [&](const Arg& x) -> M1 { if (x.kind == 'N') return M1{meta::Nothing}; return M1{mk<T, A1>(x, CL)}; };
     auto mkM2 = [&](const Arg& x) -> M2 { if (x.kind == 'N') return M2{meta::Nothing}; return M2{mk<T, A2>(x, CL)}; };
-    auto mkE1 = [&](const Arg& x) -> E1 { if (x.kind == 'I') return E1{Mode<CL>::conv(x.val)}; return E1{mk<T, A1>(x, CL)}; };
-    auto mkE2 = [&](const Arg& x) -> E2 { if (x.kind == 'I') return E2{Mode<CL>::conv(x.val)}; return E2{mk<T, A2>(x, CL)}; };
+    auto mkE1 = [&](const Arg& x) -> E1 { if (x.kind == 'I') return E1{Mode<CL, AP>::conv(x.val)}; return E1{mk<T, A1>(x, CL)}; };
+    auto mkE2 = [&](const Arg& x) -> E2 { if (x.kind == 'I') return E2{Mode<CL, AP>::conv(x.val)}; return E2{mk<T, A2>(x, CL)}; };
     if constexpr (!C1 && !C2) {
     if (form == "nn") {
-        if constexpr (CL) return m.cmp(Mode<CL>::conv(a[0].val), (float)Mode<CL>::conv(a[1].val));
+        if constexpr (CL) return m.cmp(Mode<CL, AP>::conv(a[0].val), (float)Mode<CL, AP>::conv(a[1].val));
         else return m.cmp((int)a[0].val, (long)a[1].val);
     }
+    if constexpr (!AP) {
     if (form == "ii") {
         return with_idx(kind(0), a[2].list, [&](const auto& x) {
             return with_idx(kind(1), a[3].list, [&](const auto& y) -> std::string {
@@ -142,6 +182,7 @@ static std::string run(const Case& c, const std::string& form) {
             });
         } else return "unsupported";
     }
+    }   // index-array forms: not through apply_*
     if (form == "aa") {
         return with_arr<T>(kind(0), a[2], CL, [&](const auto& x) {
             return with_arr<T>(kind(1), a[3], CL, [&](const auto& y) -> std::string {
@@ -171,24 +212,24 @@ static std::string run(const Case& c, const std::string& form) {
     if (form == "ee") return m.cmp(mkE1(a[0]), mkE2(a[1]));
     if (form == "ea") return m.cmp(mkE1(a[0]), mk<T, A2>(a[1], CL));
     if (form == "ae") return m.cmp(mk<T, A1>(a[0], CL), mkE2(a[1]));
-    if (form == "en") return m.cmp(mkE1(a[0]), Mode<CL>::conv(a[1].val));
-    if (form == "ne") return m.cmp(Mode<CL>::conv(a[0].val), mkE2(a[1]));
+    if (form == "en") return m.cmp(mkE1(a[0]), Mode<CL, AP>::conv(a[1].val));
+    if (form == "ne") return m.cmp(Mode<CL, AP>::conv(a[0].val), mkE2(a[1]));
     if (form == "tt") {
         auto x = nmtools_tuple{mk<T, A1>(a[0], CL), mk<T, A1>(a[1], CL)};
         auto y = nmtools_tuple{mk<T, A2>(a[2], CL), mk<T, A2>(a[3], CL)};
         return m.cmp(x, y);
     }
     if (form == "tm") {
-        auto x = nmtools_tuple{mkM1(a[0]), Mode<CL>::conv(a[1].val)};
-        auto y = nmtools_tuple{mkM2(a[2]), Mode<CL>::conv(a[3].val)};
+        auto x = nmtools_tuple{mkM1(a[0]), Mode<CL, AP>::conv(a[1].val)};
+        auto y = nmtools_tuple{mkM2(a[2]), Mode<CL, AP>::conv(a[3].val)};
         return m.cmp(x, y);
     }
     if (form == "mt") {
         if constexpr (!CL) {
             using TP1 = nmtools_tuple<A1, T>; using TP2 = nmtools_tuple<A2, T>;
             using MT1 = nmtools_maybe<TP1>; using MT2 = nmtools_maybe<TP2>;
-            auto mk1 = [&](const Arg& p, const Arg& q) -> MT1 { if (p.kind == 'N') return MT1{meta::Nothing}; return MT1{TP1{mk<T, A1>(p, CL), Mode<CL>::conv(q.val)}}; };
-            auto mk2 = [&](const Arg& p, const Arg& q) -> MT2 { if (p.kind == 'N') return MT2{meta::Nothing}; return MT2{TP2{mk<T, A2>(p, CL), Mode<CL>::conv(q.val)}}; };
+            auto mk1 = [&](const Arg& p, const Arg& q) -> MT1 { if (p.kind == 'N') return MT1{meta::Nothing}; return MT1{TP1{mk<T, A1>(p, CL), Mode<CL, AP>::conv(q.val)}}; };
+            auto mk2 = [&](const Arg& p, const Arg& q) -> MT2 { if (p.kind == 'N') return MT2{meta::Nothing}; return MT2{TP2{mk<T, A2>(p, CL), Mode<CL, AP>::conv(q.val)}}; };
             return m.cmp(mk1(a[0], a[1]), mk2(a[2], a[3]));
         } else return "unsupported";   // detail::isclose has no tuple arm: maybe<tuple> is ISCLOSE_UNSUPPORTED
     }
@@ -208,8 +249,11 @@ static std::string handle(const Case& c) {
     auto us = c.op.find('_'); if (us == std::string::npos) return "unsupported";
     std::string pre = c.op.substr(0, us), form = c.op.substr(us + 1), lay;
     auto dot = form.find('.'); if (dot != std::string::npos) { lay = form.substr(dot + 1); form = form.substr(0, dot); }
+    if (form == "wi") { if (pre == "eq") return run_width<false>(c); if (pre == "cl") return run_width<true>(c); return "unsupported"; }
     if (pre == "eq") return run_layout<false>(c, form, lay);
     if (pre == "cl") return run_layout<true>(c, form, lay);
+    if (pre == "aeq" && lay == "") return run<false, false, false, true>(c, form);
+    if (pre == "acl" && lay == "") return run<true, false, false, true>(c, form);
     return "unsupported";
 }
 
